@@ -1,7 +1,7 @@
 (* wire encoding of C10 cases; exported functions are [x_*] : val -> val
    case        = ( cfg dtok ops )
    cfg         = ( frag rate mem copy path sps pps )
-   op          = ( 0 kind pts dts payload ) | ( 1 seq ) | ( 2 h ) | ( 3 tok ) | ( 4 h ) | ( 5 )
+   op          = ( 0 kind pts dts payload ) | ( 1 seq ) | ( 2 h ) | ( 3 tok ) | ( 4 h ) | ( 5 ) | ( 6 sps pps )
    observation = ( sobs ... )      one per op
    sobs        = ( pl live files new res )
    pl          = ( ) | ( ( target mseq ( ( disc ms uri tok ) ... ) ) raw )
@@ -27,6 +27,7 @@ Definition dec_op (v : val) : op :=
   | 2 => ORead (as_int (nthv 1 v))
   | 3 => OPlGet (as_bytes (nthv 1 v))
   | 4 => OPlRead (as_int (nthv 1 v))
+  | 6 => OSetPs (as_bytes (nthv 1 v)) (as_bytes (nthv 2 v))
   | _ => OClose
   end.
 
@@ -34,7 +35,7 @@ Definition enc_wframe (w : wframe) : val :=
   VL [VI (w_pid w); VI (w_pts w); VI (w_dts w); vbool (w_key w); VB (w_es w)].
 Definition dec_wframe (v : val) : wframe :=
   {| w_pid := as_int (nthv 0 v); w_pts := as_int (nthv 1 v); w_dts := as_int (nthv 2 v);
-     w_key := as_bool (nthv 3 v); w_es := as_bytes (nthv 4 v); w_src := [] |}.
+     w_key := as_bool (nthv 3 v); w_es := as_bytes (nthv 4 v); w_src := []; w_sps := []; w_pps := [] |}.
 Definition enc_segobs (g : segobs) : val := VL [vbool (g_ok g); vlist enc_wframe (g_frames g)].
 Definition dec_segobs (v : val) : segobs :=
   {| g_ok := as_bool (nthv 0 v); g_frames := map dec_wframe (as_list (nthv 1 v)) |}.
